@@ -33,6 +33,10 @@ OPT_SUBMODULES = ["qualify", "simplify", "normalize", "annotate_types", "pushdow
                   "eliminate_ctes", "merge_subqueries", "unnest_subqueries", "optimize_joins", "pushdown_projections", "qualify_columns"]
 
 
+# the names sqlglot.optimizer documents as lazily re-exported (its TYPE_CHECKING block): workload vocabulary
+OPT_LAZY_NAMES = ["optimize", "RULES", "Scope", "build_scope", "find_all_in_scope", "find_in_scope", "traverse_scope", "walk_in_scope"]
+
+
 def tasks():
     out = []
     for d in DIALECT_FILES:
@@ -43,6 +47,8 @@ def tasks():
         out.append(("generator", d, 3))
     for m in OPT_SUBMODULES:
         out.append(("optattr", m, 0))
+    for m in OPT_LAZY_NAMES:
+        out.append(("optlazy", m, 0))
     out.append(("optimize", "duckdb", 0))
     out.append(("optimize", "", 1))
     return out
@@ -71,6 +77,11 @@ def run_task(t):
         import sqlglot.optimizer as O
 
         return type(getattr(O, d)).__name__
+    if kind == "optlazy":
+        import sqlglot.optimizer as O
+
+        v = getattr(O, d)
+        return (type(v).__name__, getattr(v, "__name__", None) or len(v))
     if kind == "optimize":
         from sqlglot.optimizer import optimize
 
@@ -161,6 +172,13 @@ def thread_main(tid):
     rng = random.Random(f"{SEED}:{tid}")
     ts = tasks()
     rng.shuffle(ts)
+    # collision burst: in half of the trials every thread starts with the same few tasks in the same order, so that the
+    # very first use of the same lazily initialised state happens in all threads at once
+    brng = random.Random(f"{SEED}:burst")
+    if brng.random() < 0.5:
+        allt = tasks()
+        burst = brng.sample(allt, 6)
+        ts = burst + [t for t in ts if t not in burst]
     barrier.wait()
     for t in ts:
         key = f"{t[0]}:{t[1]}:{t[2]}"
